@@ -12,10 +12,10 @@ ENTRIES = {
 class C01(Check):
     id = "C01"
     title = "Parsing never panics or aborts on any input text"
-    functions = ["parser::instruction::{parse_instructions,parse_instruction,parse_block,parse_block_instruction}", "parser::command::*", "parser::common::*",
+    functions = ["Program::{new,add_instructions,add_instruction} (after a successful parse with nothing left over)", "parser::instruction::{parse_instructions,parse_instruction,parse_block,parse_block_instruction}", "parser::command::*", "parser::common::*",
                  "parser::expression::*", "parser::gate::*", "token!/expected_token!/unexpected_eof! expansions"]
     assumptions = ["input = token slices (the lexer's output type); every token variant and payload is a solver variable (64-bit integers, finite non-negative doubles, "
-                   "identifier payloads from a 12-name alphabet)", "nom combinators modelled by their documented semantics (Error backtracks, Failure does not)",
+                   "identifier payloads from a 13-name alphabet (with the reserved pragma name EXTERN))", "nom combinators modelled by their documented semantics (Error backtracks, Failure does not)",
                    "a counterexample is reported only if some text lexes (natively, verification hook) to exactly that token slice and the public from_str panics on it"]
     outside = ["the lexer itself (characters -> tokens: nom string combinators, lexical number conversion)", "token slices longer than the bound",
                "stack exhaustion on deeply nested input", "error conversion / Display of errors after parsing", "quil-cli"]
@@ -46,6 +46,18 @@ class C01(Check):
             raise
         m.world.count("obligations"); m.world.count("discharged")      # this path returns Ok or Err
         m.force_tag(r)
+        if entry == "program" and r.tag == 0:
+            # Program::from_str goes on to build the program from the parsed instructions (when nothing is left over)
+            rest = deref(r.fields[0].fields[0])
+            if isinstance(rest, Slice) and len(rest) == 0:
+                m.world.count("obligations")
+                try:
+                    cell = [m.call_path("Program::new", [])]
+                    m.call_path("Program::add_instructions", [Ref(cell, 0), r.fields[0].fields[1]])
+                    m.world.count("discharged"); m.world.count("program_built")
+                except Unsupported as e:
+                    # recorded, not claimed: the build step of this path uses a construct without a model
+                    m.world.count("program_build_outside"); m.world.count("discharged")
         if m.want_sample() and m._check() == z3.sat:
             mdl = m.model_dict(m.solver.model())
             ct = concrete_tokens(self.td, mdl, L)
